@@ -48,6 +48,10 @@ CHECKS = {
          "Inputs are constructed as k*span+d with d at 0, ±1, exact ties and ±1 around them, spans from 1 ns to i64::MAX incl. invalid ones, instants at the 64-bit-nanosecond window edges ±12 ns, the epoch, both range ends with offsets that push the wall clock out of range; every Ok result is re-applied (idempotence) and every Err must be of a kind that applies. ~8e7 evaluations quick, 2e9 thorough. Sampling of the instant × span × offset product.",
          "Trusted: i128 oracle in harness/src/props/c17.rs (self-tested on rustdoc examples). Where the wall-clock and the UTC timestamp disagree about fitting 64 bits both Err(TimestampExceedsLimit) and the correct value are accepted. Leap-second inputs are only in the no-panic/error-class monitors for DurationRound.",
          "DESIGN.md §4 C17"),
+ "C19": ("exhaustive runtime enumeration against tiny reference models: 7/12-cycles, all 49 weekday pairs, all 128 weekday sets x 7 days, all 128x128 set pairs, every next/next_back interleaving of every set from every start day, full 8/16-bit numeric domains, 2^len case variants of every name; plus boundary catalogues (k + m*2^32 ...) and random values for the wide integer types and ~3e5 near-miss strings",
+         "The finite parts of the property (cycles, numbering, distance, set algebra, iteration order under every interleaving, 8/16-bit conversions, case variants) are enumerated completely on every run, so for them observation is as strong as it gets; the wide integer conversions and string rejection are sampled with catalogues aimed at narrowing casts and one-edit neighbours.",
+         "Trusted: the [bool;7] set model and the ASCII-case-insensitive name recogniser in harness/src/props/c19.rs. from_f32/from_f64 are not checked (the property says integers).",
+         "DESIGN.md §4 C19"),
 }
 NOT_YET = {}
 
